@@ -14,6 +14,7 @@ RULE = ('every tabulated unweighted base rule (log, log-log, sqrt, 1/sqrt famili
         'integrated to 1e-12 relative through the real integrate(); double mirror equals the rule; symmetric and '
         'non-symmetric Duffy agree on symmetric integrands; log-singular model integrands against closed forms. '
         'A case is one (base rule, constructor, box, monomial); distinct counts (base rule, constructor, monomial)')
+RULE += ' ' + 'Besides the sampled boxes every rule is applied to translated copies of the reference box (all sides exactly 1, and exactly 2, at non-zero integer offsets) in one, two and three dimensions.'
 ASSUMPTIONS = [
     'degrees: tensor = base degree per coordinate (total degree <= base degree included), 2-D Duffy = base-1, 3-D Duffy = base-2',
     'monomials are taken in box-local affine coordinates ((x-a)/(b-a))^i and (1-(x-a)/(b-a))^i, a basis of the same '
@@ -26,7 +27,7 @@ ASSUMPTIONS = [
 ]
 REQUIRED = {t: ['ctor:interval', 'ctor:mirror1d', 'ctor:product2d', 'ctor:mirror2d', 'ctor:duffy2d', 'ctor:duffy2d-sym',
                 'ctor:product3d', 'ctor:mirror3d', 'ctor:duffy3d-id', 'ctor:duffy3d-id-sym', 'ctor:duffy3d-touch',
-                'ctor:double-mirror', 'ctor:sym-vs-nonsym', 'model:log-singular']
+                'ctor:double-mirror', 'ctor:sym-vs-nonsym', 'model:log-singular', 'box:unit-size-translated']
             for t in ('quick', 'thorough')}
 TIMEOUT = {'quick': 900, 'thorough': 5400}
 
@@ -61,6 +62,9 @@ def make_scheme(fam, key):
     ctor = {'log': Q.log_quadrature_scheme, 'log_log': Q.log_log_quadrature_scheme,
             'sqrt': Q.sqrt_quadrature_scheme, 'sqrtinv': Q.sqrtinv_quadrature_scheme}[fam]
     return ctor(*key)
+
+
+SPECIAL_SIDES = [1.0, 2.0]
 
 
 def side(rng):
@@ -135,9 +139,13 @@ def run_shard(spec, acc):
             continue
         for variant, sch in (('interval', s1), ('mirror1d', m1)):
             acc.seen('ctor:' + variant)
-            for _ in range(spec['boxes']):
+            for i_box in range(spec['boxes'] + 2):
                 h = max(side(rng), 2e-5)
                 a = origin(rng, h)
+                if i_box >= spec['boxes']:
+                    # translated copies of the reference interval / of round sizes: every side exactly 1 (2, 1/2) at an integer offset
+                    h, a = SPECIAL_SIDES[i_box - spec['boxes']], float(rng.choice([2, -1, 5, -3, 7]))
+                    acc.seen('box:unit-size-translated')
                 b = a + h
                 hh = b - a
                 for i in range(deg + 1):
@@ -169,6 +177,9 @@ def run_shard(spec, acc):
             hx, hy = max(side(rng), 2e-7), max(side(rng), 2e-7)
             ax_, ay_ = origin(rng, hx), origin(rng, hy)
             boxes2.append((ax_, ax_ + hx, ay_, ay_ + hy))
+        for hsp in SPECIAL_SIDES:
+            ax_, ay_ = float(rng.choice([2, -1, 5, 0])), float(rng.choice([-3, 1, 4]))
+            boxes2.append((ax_, ax_ + hsp, ay_, ay_ + hsp))
 
         def mono2(box, i, j, fx=0, fy=0):
             a, b, c, d_ = box
@@ -260,6 +271,9 @@ def run_shard(spec, acc):
             hs = [side(rng) for _ in range(3)]
             os_ = [origin(rng, h) for h in hs]
             boxes3.append((os_[0], os_[0] + hs[0], os_[1], os_[1] + hs[1], os_[2], os_[2] + hs[2]))
+        for hsp in SPECIAL_SIDES:
+            os_ = [float(rng.choice([2, -1, 5, 0])), float(rng.choice([-1, 0, 3])), float(rng.choice([5, 1, -2]))]
+            boxes3.append((os_[0], os_[0] + hsp, os_[1], os_[1] + hsp, os_[2], os_[2] + hsp))
 
         def mono3(box, i, j, k, flips=(0, 0, 0)):
             a, b, c, d_, e, g_ = box
